@@ -476,6 +476,88 @@ def describe_block(g, b):
         else: out.append(n)
     return '; '.join(out)
 
+# ----------------------------------------------------------------------------- O9.4 Go lowering keeps the ANF trace (chain: Lift -> real anf_file -> real compile_fn -> Go)
+def go_trace(W, g, stmts, env=None):
+    """structural effect trace of emitted Go statements: calls by callee name, if/else as conditional sub-traces, a `for { ..; if !c { break }; .. }` loop as
+    ('while', trace before the exit test, trace after it)"""
+    GS, GE = g.GS, g.GE
+    def calls(e, out):
+        if isinstance(e, Agg) and e.ty == 'Box': e = unbox(e)
+        if not isinstance(e, Agg) or e.ty != GE.key: return
+        n = GE.variants[e.idx].name; f = dict(zip([x[0] for x in GE.variants[e.idx].fields], e.fields))
+        if n == 'Call':
+            for a in f['args'].items: calls(a, out)
+            fn = unbox(f['func']); nm = ms.pystr(fn.fields[0]) if GE.variants[fn.idx].name == 'Var' else '<value>'
+            out.append(('call', nm if nm[0] in 'fghkp' and not nm.startswith('t') else '<value>'))
+        elif n == 'BinaryOp': calls(f['lhs'], out); calls(f['rhs'], out)
+        elif n in ('UnaryOp', 'Cast'): calls(f['expr'], out)
+        elif n == 'FieldAccess': calls(f['obj'], out)
+        elif n == 'StructLiteral':
+            for x in f['fields'].items: calls(x.fields[1], out)
+        elif n == 'ArrayLiteral':
+            for x in f['elems'].items: calls(x, out)
+        elif n == 'Index': calls(f['array'], out); calls(f['index'], out)
+        elif n == 'Block': raise Unsupported('go trace: expression block')
+    out = []
+    for st in stmts:
+        n = GS.variants[st.idx].name; f = dict(zip([x[0] if x[0] is not None else str(i) for i, x in enumerate(GS.variants[st.idx].fields)], st.fields))
+        if n == 'Expr': calls(st.fields[0], out)
+        elif n == 'VarDecl':
+            if f['value'].idx == 1: calls(f['value'].fields[0], out)
+        elif n == 'Assignment': calls(f['value'], out)
+        elif n == 'Return':
+            if f['expr'].idx == 1: calls(f['expr'].fields[0], out)
+        elif n == 'If':
+            calls(f['cond'], out)
+            out.append(('if', go_trace(W, g, f['then'].fields[0].items), go_trace(W, g, f['else_'].fields[0].fields[0].items) if f['else_'].idx == 1 else []))
+        elif n == 'Loop':
+            body = f['body'].fields[0].items; cut = None
+            for i, b in enumerate(body):
+                if GS.variants[b.idx].name == 'If' and any(GS.variants[x.idx].name == 'Break' for x in b.fields[1].fields[0].items): cut = i; break
+            if cut is None: raise Unsupported('go trace: loop without an exit test')
+            out.append(('while', go_trace(W, g, body[:cut]), go_trace(W, g, body[cut + 1:])))
+        elif n == 'Break': pass
+        elif n == 'Go': out.append(('go',))
+        else: raise Unsupported('go trace: statement ' + n)
+    return out
+
+def ob_go_lowering(r, tier, seed, depth, forms, top):
+    W = e2.fresh_world(CRATES)
+    LF = W.tt.find_adt(['lift', 'LiftFn'], 'compiler'); LFILE = W.tt.find_adt(['lift', 'LiftFile'], 'compiler')
+    GFN = W.tt.find_adt(['goast', 'Fn'], 'compiler'); GOENV = W.tt.find_adt(['go', 'compile', 'GlobalGoEnv'], 'compiler')
+    r.bounds = 'chain Lift -> anf_file -> compile_fn on bodies `f(A1, A2)` / boolean tops, sub-expressions lazily chosen to depth %d among %s' % (depth, forms)
+    r.assumptions = ['oracle: the structural call trace of the emitted Go function (calls in statement order, if/else and loop bodies as sub-traces, loop = statements before / after the exit test) equals the source trace; in particular a `while` condition is evaluated inside the loop before the exit test',
+                     'empty global environments (no enums/structs/traits): forms that need them are outside this obligation']
+    for n in list(W.methods.get('from_lift_env', [])): W.stubs[n[1]] = lambda ex, a: Opaque('anfenv')
+    def entry(ex):
+        lg = LiftGen(W, ex, forms)
+        if top == 'call':
+            a1, t1 = lg.expr(depth); a2, t2 = lg.expr(depth)
+            body = lg.call('f', [a1, a2]); src = t1 + t2 + [('call', 'f')]
+        else:
+            body, src = lg.boolean(depth + 1)
+        fn = Agg(LF.key, 0, [mkstr('main'), PyVec([]), lg.ty('TInt32') if top == 'call' else lg.ty('TBool'), body])
+        h = {0: Agg('compiler::env::Gensym', 0, [Cell_(0)])}
+        res = ex.call('anf::anf_file', [Opaque('liftenv'), Ref(h, 0), Agg(LFILE.key, 0, [PyVec([fn])])])
+        afn = res.fields[0].fields[0].items[0]
+        genv = ex.call('env::GlobalTypeEnv::new_empty', []); genv2 = ex.call('env::GlobalTypeEnv::new_empty', [])
+        monoenv = ex.call('mono::GlobalMonoEnv::from_genv', [genv2]); liftenv = ex.call('lift::GlobalLiftEnv::from_monoenv', [monoenv])
+        h2 = {0: Agg(GOENV.key, 0, [genv, liftenv]), 1: Agg('compiler::env::Gensym', 0, [Cell_(100)])}
+        gfn = ex.call('go::compile::compile_fn', [Ref(h2, 0), Ref(h2, 1), afn])
+        gf = dict(zip([x[0] for x in GFN.variants[0].fields], gfn.fields))
+        gg = GoGen(W, ex)
+        return norm_trace(src), norm_trace(go_trace(W, gg, gf['body'].fields[0].items))
+    res = e2.explore(r, W, entry, [])
+    found = {}
+    for p in res:
+        r.cases += 1
+        if p.kind != 'ok': found.setdefault('panic', 'anf/compile_fn panics: %s' % p.value); continue
+        src, got = p.value
+        if src or got: r.nontrivial += 1
+        if src != got: found.setdefault('go-lowering-changes-trace', 'source trace %s, trace of the emitted Go %s' % (src, got))
+        elif len(r.samples) < 3 and src: r.samples.append({'trace': str(src)})
+    for k, what in found.items(): r.findings.append(Finding(k, what[:700], {}, True, 'Go function produced by the real anf_file + compile_fn MIR'))
+
 def obligations():
     obs = [Ob('O9.1-effect-predicate-d1', 'DCE effect predicate is sound, depth 1', ob_effect_predicate, ('quick', 'thorough'), 2, dict(depth=1)),
            Ob('O9.1-effect-predicate-d2', 'DCE effect predicate is sound, depth 2', ob_effect_predicate, ('quick', 'thorough'), 10, dict(depth=2))]
@@ -486,6 +568,8 @@ def obligations():
             Ob('O9.2-block-dce-3', 'block-level DCE: 3 statements + return', ob_block_dce, ('thorough',), 20, dict(nstmts=3, depth=0)),
             Ob('O9.2-block-dce-if', 'block-level DCE: 1 statement, then if/else with one assignment or call per branch, + return', ob_block_dce, ('quick', 'thorough'), 20, dict(nstmts=1, depth=1, forms=('atom', 'call', 'div'))),
             Ob('O9.2-block-dce-if2', 'block-level DCE: 2 statements, then if/else, + return', ob_block_dce, ('thorough',), 200, dict(nstmts=2, depth=1, forms=('atom', 'call')))]
+    obs += [Ob('O9.4-go-lowering-call-d1', 'Go lowering keeps the effect trace: f(A1, A2), depth 1 (incl. while / if / let)', ob_go_lowering, ('quick', 'thorough'), 10, dict(depth=1, forms=['call1', 'add', 'if', 'let', 'while', 'and', 'or', 'not', 'less'], top='call')),
+            Ob('O9.4-go-lowering-bool-d1', 'Go lowering keeps short-circuit branches', ob_go_lowering, ('quick', 'thorough'), 5, dict(depth=1, forms=['and', 'or', 'not', 'less'], top='bool'))]
     return obs
 
 META = {
